@@ -179,7 +179,7 @@ def view_operand_cases(etl, rng, ctx, ops, ncases, header=('x', 'xy', 'v'), pool
             tabs.append([hdr] + [[rng.choice(pools[j]) for j in range(len(hdr))] for _ in range(n)])
         name, arity, call = ops[ci % len(ops)]
         pos = rng.randrange(arity)
-        key = rng.choice([hdr[0], hdr[1], tuple(hdr[:2]), None, hdr[2]])
+        key = rng.choice([hdr[0], hdr[1], tuple(hdr[:2]), None, hdr[2], tuple(hdr[:2]), (hdr[1], hdr[0]), (hdr[2], hdr[0]), (hdr[2], hdr[1])])
         rev = rng.random() < 0.6
         kw = rng.choice([{}, {'buffersize': 2}, {'cache': False}])
         present = 'sort(%r, reverse=%r, %r)' % (key, rev, kw)
